@@ -404,11 +404,17 @@ func (p *proxyConn) writeErrorResponse(req *http.Request, err error) error {
 	if res == nil {
 		res = p.errorResponse(req, err)
 	}
+	// The challenge of the proxy's own 407 is addressed to the client,
+	// it must survive the hop-by-hop cleanup done by the response modifiers.
+	challenge := res.Header.Values("Proxy-Authenticate")
 	if err := p.modifyResponse(res); err != nil {
 		log.Error(req.Context(), "error modifying error response", "error", err)
 		if !p.WithoutWarning {
 			proxyutil.Warning(res.Header, err)
 		}
+	}
+	if res.StatusCode == http.StatusProxyAuthRequired && len(challenge) > 0 {
+		res.Header["Proxy-Authenticate"] = challenge
 	}
 	return p.writeResponse(res)
 }
